@@ -269,6 +269,9 @@ fn decode_elem(t: &mut Tape, p: &BigUint, boundary: &[BigUint]) -> BigUint {
     }
 }
 
+/// Set by the pow probes of `run` when `a ** k` with a large exponent does not return in a subprocess.
+static POW_UNBOUNDED: std::sync::atomic::AtomicBool = std::sync::atomic::AtomicBool::new(false);
+
 pub fn real_prime_case(tape: &[u8], rec: &Rec) -> Verdict {
     let mut t = Tape::new(tape);
     let primes = field::curve_primes();
@@ -305,6 +308,12 @@ pub fn real_prime_case(tape: &[u8], rec: &Rec) -> Verdict {
             return Ok(());
         }
     }
+    if op == Op::Pow && POW_UNBOUNDED.load(std::sync::atomic::Ordering::Relaxed) && b > BigUint::from(1u32 << 16) {
+        // the subprocess probes of this run found that large exponents do not return (reported as
+        // a violation): evaluating them in-process would only block the rest of the run
+        rec.class("real:pow_skipped_after_unbounded_probe");
+        return Ok(());
+    }
     let got = impl_binary(op, &to_int(&a), &to_int(&b), &bp);
     rec.class(&format!("real:{op:?}"));
     let wraps = match field::big_binary(op, &a, &b, p) {
@@ -331,7 +340,11 @@ pub fn shift_probe_main(args: &[String]) -> i32 {
     let p = &primes[args[0].parse::<usize>().unwrap()].1;
     let a = BigUint::parse_bytes(args[2].as_bytes(), 10).unwrap();
     let k = BigUint::parse_bytes(args[3].as_bytes(), 10).unwrap();
-    let op = if args[1] == "l" { Op::ShiftL } else { Op::ShiftR };
+    let op = match args[1].as_str() {
+        "l" => Op::ShiftL,
+        "r" => Op::ShiftR,
+        _ => Op::Pow,
+    };
     let got = impl_binary(op, &to_int(&a), &to_int(&k), &to_int(p));
     match judge_binary(op, &a, &k, p, &got) {
         Ok(()) => {
@@ -371,14 +384,19 @@ fn shift_probe(ctx: &Ctx, pidx: usize, dir: &str, a: &BigUint, k: &BigUint) -> V
     if out.status.success() && stdout.contains("PROBE-OK") {
         Ok(())
     } else if stdout.contains("PROBE-BAD") {
-        Err(Bad::new(format!("shift probe {a} {dir} {k}: {}", stdout.trim())).sig("C16:shift-probe-value"))
+        Err(Bad::new(format!("probe {a} {dir} {k}: {}", stdout.trim()))
+            .sig(if dir == "p" { "C16:pow-probe-value" } else { "C16:shift-probe-value" }))
     } else {
         Err(Bad::new(format!(
             "{a} {} {k} under prime #{pidx} did not return within 20 CPU-seconds / 2 GiB (status {:?})",
-            if dir == "l" { "<<" } else { ">>" },
+            match dir {
+                "l" => "<<",
+                "r" => ">>",
+                _ => "**",
+            },
             out.status
         ))
-        .sig("C16:shift-unbounded"))
+        .sig(if dir == "p" { "C16:pow-unbounded" } else { "C16:shift-unbounded" }))
     }
 }
 
@@ -442,6 +460,58 @@ pub fn run(ctx: &Ctx) -> i32 {
         let r = replay_known(ctx, k);
         outcome.known_replay(k, r);
     }
+
+    // 0. Boundedness of `**` with large exponents (subprocess probes, before anything evaluates
+    //    such exponents in-process): the result is compared with the reference as well.
+    let mut pow_probes: Vec<(usize, &'static str, BigUint, BigUint)> = Vec::new();
+    for (pidx, (_, p)) in field::curve_primes().iter().enumerate() {
+        let mut exps: Vec<BigUint> = vec![
+            BigUint::from(10_000_000u64),
+            BigUint::from(1u64 << 32),
+            BigUint::from(3_000_000_000u64),
+            BigUint::from(u64::MAX),
+            BigUint::from(u64::MAX) + BigUint::one(),
+            p - BigUint::one(),
+            p - BigUint::from(2u32),
+        ];
+        if ctx.tier == Tier::Thorough {
+            exps.push(BigUint::from(1u64 << 24));
+            exps.push(BigUint::from(1u64 << 48));
+            exps.push(p >> 1usize);
+            exps.push((p >> 1usize) + BigUint::one());
+        }
+        exps.retain(|e| e < p);
+        for e in exps {
+            for a in [BigUint::from(2u32), BigUint::from(3u32), p - BigUint::one(), p - BigUint::from(2u32), (p >> 1usize) + BigUint::one()] {
+                pow_probes.push((pidx, "p", a, e.clone()));
+            }
+        }
+    }
+    stats.eval(pow_probes.len() as u64);
+    stats.class_n("pow_probes_subprocess", pow_probes.len() as u64);
+    let fails = run_items(ctx, &pow_probes, |_, (pidx, dir, a, k)| {
+        stats.nontrivial(fnv(format!("probe/{pidx}/{dir}/{a}/{k}").as_bytes()));
+        shift_probe(ctx, *pidx, dir, a, k)
+    });
+    if fails.iter().any(|(_, b)| b.signature == "C16:pow-unbounded") {
+        POW_UNBOUNDED.store(true, std::sync::atomic::Ordering::Relaxed);
+    }
+    outcome.absorb(
+        &known,
+        fails
+            .into_iter()
+            .map(|(i, b)| {
+                let (pidx, dir, a, k) = &pow_probes[i];
+                Failure {
+                    check: "shift_probe".into(),
+                    tape: format!("{pidx} {dir} {a} {k}").into_bytes(),
+                    reason: b.reason,
+                    signature: b.signature,
+                    rendered: String::new(),
+                }
+            })
+            .collect(),
+    );
 
     // 1. Exhaustive small fields.
     let primes: Vec<u128> = match ctx.tier {
